@@ -117,6 +117,36 @@ def run(chk, replay=None):
             if (d - EPOCH) // datetime.timedelta(milliseconds=1) != ms or (d - EPOCH) % datetime.timedelta(milliseconds=1):
                 chk.violation('get_datetimes: datetime differs from the epoch millisecond', {'ms': ms, 'datetime': str(d)})
                 break
+    # the conversions are about UTC whatever the local time zone of the process: the same round trips with the zone
+    # set to US Eastern (a POSIX rule string, no zone files needed), including the instants of its clock changes
+    import os
+    import time as _time
+    old_tz = os.environ.get('TZ')
+    try:
+        os.environ['TZ'] = 'EST5EDT,M3.2.0,M11.1.0'
+        _time.tzset()
+        sub = instants[:: max(1, len(instants) // 400)] + [ms_of(2021, 3, 14, 7, 0, 0) + k for k in (-3600000, -1, 0, 1, 1800000, 3600000)] + \
+            [ms_of(2021, 11, 7, 6, 0, 0) + k for k in (-3600000, -1, 0, 1, 1800000, 3600000)]
+        for ms in sub:
+            dt = guarded(tu.epoch_time_to_utc_datetime, ms)
+            if isinstance(dt, Raised):
+                continue
+            naive = dt.replace(tzinfo=None)
+            b1, b2 = guarded(tu.datetime_to_utc_epoch, naive), guarded(tu.datetime_to_utc_epoch, dt)
+            s1 = guarded(tu.strptime_to_utc_epoch, naive.strftime('%Y-%m-%d %H:%M:%S.%f'))
+            chk.count(3)
+            if any(isinstance(x, Raised) or int(x) != ms for x in (b1, b2, s1)) or (dt.year, dt.month, dt.day, dt.hour) != \
+                    tuple((EPOCH + datetime.timedelta(milliseconds=ms)).timetuple()[:4]):
+                chk.violation('local time zone changes a UTC conversion', {'epoch_ms': ms, 'TZ': os.environ['TZ'], 'datetime': str(dt),
+                              'naive->epoch': repr(b1), 'aware->epoch': repr(b2), 'string->epoch': repr(s1)})
+                break
+        chk.nontrivial('tz|EST5EDT')
+    finally:
+        if old_tz is None:
+            os.environ.pop('TZ', None)
+        else:
+            os.environ['TZ'] = old_tz
+        _time.tzset()
     # chunks with decimal-year ranks
     chunk = 500
     traces = []
